@@ -482,6 +482,38 @@ def _check(config, inj, labels, tmp):
                                 if l and not l.startswith(('import ', 'from ')))
     require(strip(got['config']) == strip(want['config']) and got['locked'],
             'locked-config-changed', lambda: f"{got['config']}\n---\n{want['config']}")
+    # ... and exactly those: the imports spelled before the refused statement, in execution order
+    before_first, where = [], []
+
+    def walk(i):
+      for kk, st_ in enumerate(config['files'][i]['stmts']):
+        if st_[0] == 'include':
+          if walk(st_[1]):
+            return True
+        elif st_[0] == 'import':
+          before_first.append(st_[1])
+        else:
+          where.append((i, kk))
+          return True
+      return False
+
+    walk(0)
+    got_imports = {l for l in got['config'].splitlines() if l.startswith(('import ', 'from '))}
+    want_imports = {l for l in want['config'].splitlines() if l.startswith(('import ', 'from '))}
+    require(got_imports == want_imports | set(before_first), 'locked-parse-imports',
+            lambda: f'recorded imports {sorted(got_imports)}; before the call {sorted(want_imports)}, '
+                    f'spelled before the first binding {before_first}')
+    if before_first:
+      labels.add('locked:imports-before-the-refused-statement')
+    # the refusal is a semantic error like any other: it says where
+    if where:
+      wi, wk = where[0]
+      _, wspans = tree.render_file(wi)
+      entries = re.findall(r'In (file "([^"]*)",|bindings string) line (\d+)', str(raised))
+      got_chain = [((e[1] or None), int(e[2])) for e in entries]
+      require((tree.names[wi], wspans[wk][0]) in got_chain, 'locked-error-location',
+              lambda: f'expected {tree.names[wi] or "bindings string"} line {wspans[wk][0]}; '
+                      f'message entries {got_chain}\n{raised}')
     return ok(labels, True)
   require(isinstance(raised, exc), 'exception-class',
           lambda: f'{kind}: expected {exc}, got {type(raised).__name__}: {raised}')
